@@ -87,6 +87,15 @@ theorem sinv_step {h h' : Hist} {op : Op} (hi : SInv h) (hf : FInv h)
     · rename_i old hl
       cases hst
       exact sinv_push hi (hi.sorted old (lookup_mem hl).1)
+  | restoreAt hv v =>
+    simp only [stepG] at hst
+    split at hst
+    · cases hst; exact hi
+    · split at hst
+      · cases hst; exact hi
+      · rename_i old hl
+        cases hst
+        exact sinv_push hi (hi.sorted old (lookup_mem hl).1)
 
 theorem sinv_runG (ops : List Op) {s : Option Hist} (hg : Good s) (hs : ∀ h, s = some h → SInv h) :
     ∀ h, runG true s ops = some h → SInv h := by
@@ -112,6 +121,7 @@ theorem sinv_runG (ops : List Op) {s : Option Hist} (hg : Good s) (hs : ∀ h, s
       | overwrite f k rows => simp [stepG] at hst
       | delete p => simp [stepG] at hst
       | restore v => simp [stepG] at hst
+      | restoreAt hv v => simp [stepG] at hst
     | some h => exact sinv_step (hs h rfl) (hg h rfl).2.1 hst
 
 end LanceModel.C07
